@@ -10,7 +10,7 @@ Lemma bind_ret : forall {A} (m : res A), (x <- m ;; Ok x) = m.
 Proof. intros A m; destruct m; reflexivity. Qed.
 
 Ltac res_crush :=
-  cbn;
+  repeat autounfold with golem_helpers; cbn;
   repeat (match goal with
           | |- context [match ?r with Ok _ => _ | Panic => _ end] => destruct r; cbn
           | |- context [bind ?r _] => destruct r; cbn
